@@ -143,7 +143,7 @@ impl FromStr for PrettyDecimal {
                     prefix_len = 1;
                     sign = -1;
                 }
-                (_, _, b',') if aligned_comma(prefix_len, comma_pos, i) => {
+                (_, _, b',') if scale.is_none() && aligned_comma(prefix_len, comma_pos, i) => {
                     format = Some(Format::Comma3Dot);
                     comma_pos = Some(i + 4);
                 }
